@@ -17,7 +17,7 @@
  *   STR <slot> <hex|-> define C string <slot> (bytes + NUL)            -> "ok addr=<hex>"
  *   STRW <slot> <hex|-> same, placed so that the NUL is the last byte of a readable page
  *   OBJ <slot> <hexptr> std::string object whose _M_dataplus is <hexptr> -> "ok addr=<hex>"
- *   E <fn>             mcount_entry(f<fn>)   -> "rc= hij= idx= arg=<flag> sz=<size field> mem=<hex>"
+ *   E <fn>             mcount_entry(f<fn>)   -> "rc= hij= idx= xc=<mask of xmm registers changed by the hook> arg=<flag> sz=<size field> mem=<hex>"
  *   X                  mcount_exit           -> "ret= rvf=<flag> sz= mem=<hex> recs=<hex>"
  *   END
  * mem = bytes [4, 2048) of the frame's slice (i.e. including the whole next slice) without the
@@ -168,6 +168,7 @@ int main(void)
 	struct mcount_regs regs;
 	long retval = 0;
 	uint64_t xmm[8] = { 0 };
+	uint64_t xmm_after[8] = { 0 };
 	uint64_t stackw[NSTACK] = { 0 };
 	uint64_t fpret = 0;
 	unsigned char st0[16] = { 0 };
@@ -340,9 +341,28 @@ int main(void)
 				     : "r"(xmm)
 				     : "xmm0", "xmm1", "xmm2", "xmm3", "xmm4", "xmm5", "xmm6", "xmm7", "memory");
 			rc = mcount_entry(&h->slot[1], (unsigned long)funcs[fn], &regs);
+			/* the traced function's own floating-point arguments must survive the hook */
+			asm volatile("movq %%xmm0, 0(%0)\n\t"
+				     "movq %%xmm1, 8(%0)\n\t"
+				     "movq %%xmm2, 16(%0)\n\t"
+				     "movq %%xmm3, 24(%0)\n\t"
+				     "movq %%xmm4, 32(%0)\n\t"
+				     "movq %%xmm5, 40(%0)\n\t"
+				     "movq %%xmm6, 48(%0)\n\t"
+				     "movq %%xmm7, 56(%0)\n\t"
+				     :
+				     : "r"(xmm_after)
+				     : "memory");
 			h->hijacked = h->slot[1] != h->orig;
 			hdepth++;
-			printf("%d rc=%d hij=%d idx=%d", opno, rc, h->hijacked, idx);
+			{
+				unsigned xc = 0;
+
+				for (i = 0; i < 8; i++)
+					if (xmm_after[i] != xmm[i])
+						xc |= 1u << i;
+				printf("%d rc=%d hij=%d idx=%d xc=%x", opno, rc, h->hijacked, idx, xc);
+			}
 			if (h->hijacked) {
 				struct mcount_ret_stack *rs = &mtdp->rstack[idx];
 
